@@ -80,3 +80,750 @@ Proof.
            | H : context [if ?b then _ else _] |- _ => destruct b eqn:?
            end; try lia; try discriminate.
 Qed.
+
+(* ========================================================================================== *)
+(** * Whole stream cases: the oracle accepts whatever the model produces *)
+From BV Require Import Proofs.Book.
+From Coq Require Import Sorting.Sorted.
+
+(** ** boolean equalities are equalities *)
+Lemma option_eqb_Z_eq (x y : option Z) : option_eqb Z.eqb x y = true -> x = y.
+Proof. destruct x, y; cbn; intros H; try discriminate; [apply Z.eqb_eq in H; congruence|reflexivity]. Qed.
+Lemma option_eqb_Z_refl (x : option Z) : option_eqb Z.eqb x x = true.
+Proof. destruct x; cbn; [apply Z.eqb_refl|reflexivity]. Qed.
+
+Lemma levels_eqb_eq : forall l1 l2, levels_eqb l1 l2 = true -> l1 = l2.
+Proof.
+  induction l1 as [|[p a] l1 IH]; intros [|[q c] l2] H; cbn in H; try discriminate; [reflexivity|].
+  unfold level_eqb, pair_eqb in H. cbn [fst snd] in H.
+  apply andb_true_iff in H as [H1 H2]. apply andb_true_iff in H1 as [Hp Ha].
+  apply Z.eqb_eq in Hp, Ha. subst. f_equal. apply IH. exact H2.
+Qed.
+
+Lemma book_eqb_eq a b : book_eqb a b = true -> a = b.
+Proof.
+  unfold book_eqb. intros H.
+  apply andb_true_iff in H as [H Ha]. apply andb_true_iff in H as [H Hb]. apply andb_true_iff in H as [Hs Ht].
+  apply N.eqb_eq in Hs. apply option_eqb_Z_eq in Ht. apply levels_eqb_eq in Ha, Hb.
+  destruct a, b; cbn in *; congruence.
+Qed.
+
+Lemma books_eqb_eq : forall l1 l2, list_eqb book_eqb l1 l2 = true -> l1 = l2.
+Proof.
+  induction l1 as [|a l1 IH]; intros [|b l2] H; cbn in H; try discriminate; [reflexivity|].
+  apply andb_true_iff in H as [H1 H2]. apply book_eqb_eq in H1. subst. f_equal. apply IH. exact H2.
+Qed.
+
+(** ** the observation is determined by the model's output *)
+Definition oclass_of (v : venue) (o : tout) : oclass :=
+  match o with
+  | TNone => ONone
+  | TErr (InvalidSequence a b) => OErrSeq a b true
+  | TErr (SocketUnidentifiable _) => OErrSocket false
+  | TEvent key te ev => OEvent key (exch_code v) true te (event_seq ev)
+                               (match ev with Snapshot _ t _ _ | Update _ t _ _ => t end)
+  end.
+
+Lemma out_matches_eq v o c : out_matches v o c = true -> c = oclass_of v o.
+Proof.
+  destruct o as [|[a b|s]|key te [sq tm bs as_|sq tm bs as_]]; destruct c; cbn; intros H; try discriminate.
+  - reflexivity.
+  - apply andb_true_iff in H as [H Ht]. apply andb_true_iff in H as [Ha Hb].
+    apply N.eqb_eq in Ha, Hb. apply Bool.eqb_prop in Ht. subst. reflexivity.
+  - apply Bool.eqb_prop in H. subst. reflexivity.
+  - repeat (apply andb_true_iff in H as [H ?]).
+    repeat match goal with
+           | H : N.eqb _ _ = true |- _ => apply N.eqb_eq in H
+           | H : Z.eqb _ _ = true |- _ => apply Z.eqb_eq in H
+           | H : option_eqb Z.eqb _ _ = true |- _ => apply option_eqb_Z_eq in H
+           end. subst. reflexivity.
+Qed.
+
+Lemma obs_matches_spec v t bs o ob :
+  obs_matches v t bs o ob = true ->
+  o_out ob = oclass_of v o /\
+  match o with
+  | TEvent key _ _ => exists b, bfind key bs = Some b /\ o_book ob = Some b
+  | _ => o_book ob = None
+  end.
+Proof.
+  unfold obs_matches. intros H. apply andb_true_iff in H as [H Hb]. apply andb_true_iff in H as [Ho _].
+  split; [apply out_matches_eq; exact Ho|].
+  destruct o as [|e|key te ev].
+  - destruct (o_book ob); [discriminate|reflexivity].
+  - destruct (o_book ob); [discriminate|reflexivity].
+  - destruct (bfind key bs) as [b|]; [|discriminate]. destruct (o_book ob) as [b'|]; [|discriminate].
+    apply book_eqb_eq in Hb. subst. exists b'. split; reflexivity.
+Qed.
+
+(** ** [obs_book_is] decides "is the exchange's book as of its own sequence" *)
+Lemma SS_in_lookup s : forall l p a, SS s l -> In (p, a) l -> lookup l p = Some a.
+Proof.
+  unfold SS. induction l as [|[q c] tl IH]; intros p a H Hin; [destruct Hin|].
+  apply StronglySorted_inv in H as [Htl Hall]. cbn [lookup]. destruct Hin as [E|Hin].
+  - injection E as -> ->. rewrite Z.eqb_refl. reflexivity.
+  - destruct (Z.eqb_spec p q) as [E|_]; [|apply IH; assumption].
+    subst q. specialize (IH p a Htl Hin).
+    rewrite (lookup_none_after s p tl) in IH; [discriminate|exact Hall].
+Qed.
+
+Lemma side_is_map_complete s g (m : pmap) l :
+  strict_sorted s l = true -> (forall p, lookup l p = m p) -> side_is_map s g m l = true.
+Proof.
+  intros Hs Hm. unfold side_is_map. rewrite Hs. cbn [andb].
+  apply andb_true_iff. split; apply forallb_forall.
+  - intros [p a] Hin. cbn [fst snd]. rewrite <- Hm.
+    rewrite (SS_in_lookup s l p a); [apply option_eqb_Z_refl| |exact Hin].
+    apply strict_sorted_SS. exact Hs.
+  - intros p _. rewrite Hm. apply option_eqb_Z_refl.
+Qed.
+
+Lemma book_is_obs i b n :
+  book_is (delta_of (c_deltas i)) b n -> obs_book_is i b = true.
+Proof.
+  intros (Hs & [Hb Ha] & Lb & La). unfold obs_book_is. rewrite Hs.
+  apply andb_true_iff. split; apply side_is_map_complete; assumption.
+Qed.
+
+(** ** ... and conversely on the REST snapshot (whose prices are all on the grid) *)
+Lemma lookup_not_in l p : ~ In p (map fst l) -> lookup l p = None.
+Proof.
+  induction l as [|[q a] tl IH]; intros H; [reflexivity|]. cbn [lookup map fst In] in *.
+  destruct (Z.eqb_spec p q) as [E|_]; [exfalso; apply H; left; congruence|apply IH; tauto].
+Qed.
+
+Lemma last_write_not_in l p : ~ In p (map fst l) -> last_write l p = None.
+Proof.
+  induction l as [|[q a] tl IH]; intros H; [reflexivity|]. cbn [last_write map fst In] in *.
+  rewrite IH by tauto. destruct (Z.eqb_spec p q) as [E|_]; [exfalso; apply H; left; congruence|reflexivity].
+Qed.
+
+Lemma dedup_in x : forall l, In x l -> In x (dedup l).
+Proof.
+  induction l as [|y tl IH]; intros H; [destruct H|]. cbn [dedup].
+  destruct (existsb (Z.eqb y) tl) eqn:E.
+  - destruct H as [->|H]; [|apply IH; exact H].
+    apply existsb_exists in E as (z & Hz & Ez). apply Z.eqb_eq in Ez. subst z. apply IH. exact Hz.
+  - destruct H as [->|H]; [left; reflexivity|right; apply IH; exact H].
+Qed.
+
+Lemma cat_in delta sd x : forall len lo, In x (cat delta sd lo len) -> exists n, In x (dside delta sd n).
+Proof.
+  induction len as [|len IH]; intros lo H; [destruct H|].
+  cbn [cat] in H. apply in_app_or in H as [H|H]; [exists lo; exact H|eapply IH; exact H].
+Qed.
+
+Definition delta_prices (dl : list (list (Z * Z) * list (Z * Z))) : list Z :=
+  flat_map (fun d => map fst (fst d) ++ map fst (snd d)) dl.
+
+Lemma dside_delta_of_in dl sd n x :
+  In x (dside (delta_of dl) sd n) -> In (fst x) (delta_prices dl).
+Proof.
+  unfold dside, delta_of, delta_prices. intros H.
+  destruct (Nat.lt_ge_cases (N.to_nat n) (length dl)) as [Hlt|Hge].
+  - apply in_flat_map. exists (nth (N.to_nat n) dl ([], [])). split; [apply nth_In; exact Hlt|].
+    apply in_or_app. destruct sd; [left|right]; apply in_map; exact H.
+  - rewrite nth_overflow in H by exact Hge. destruct sd; destruct H.
+Qed.
+
+Lemma B_off_grid dl sd n p : ~ In p (delta_prices dl) -> B (delta_of dl) sd n p = None.
+Proof.
+  intros H. unfold B. rewrite spec_upsert_last_write, last_write_not_in; [reflexivity|].
+  intros Hin. apply H. apply in_map_iff in Hin as (x & Ex & Hx). subst p.
+  unfold payload in Hx. apply cat_in in Hx as (k & Hk). eapply dside_delta_of_in; exact Hk.
+Qed.
+
+Lemma side_is_map_sound s g (m : pmap) l :
+  side_is_map s g m l = true ->
+  (forall p, ~ In p g -> lookup l p = None /\ m p = None) ->
+  strict_sorted s l = true /\ forall p, lookup l p = m p.
+Proof.
+  unfold side_is_map. intros H Hoff.
+  apply andb_true_iff in H as [H Hg]. apply andb_true_iff in H as [Hs _]. split; [exact Hs|].
+  intros p. destruct (in_dec Z.eq_dec p g) as [Hin|Hout].
+  - rewrite forallb_forall in Hg. symmetry. apply option_eqb_Z_eq. apply Hg. exact Hin.
+  - destruct (Hoff p Hout) as [-> ->]. reflexivity.
+Qed.
+
+Lemma snapshot_book_is i :
+  nodup_prices (c_sbids i) = true -> nodup_prices (c_sasks i) = true ->
+  obs_book_is i (update empty_book (snapshot_event i)) = true ->
+  book_is (delta_of (c_deltas i)) (update empty_book (snapshot_event i)) (c_L i).
+Proof.
+  intros Nb Na H. unfold obs_book_is, snapshot_event in H. cbn [update bseq bids asks] in H.
+  apply andb_true_iff in H as [Hb Ha].
+  assert (G : forall p, ~ In p (grid_of i) ->
+                        ~ In p (map fst (c_sbids i)) /\ ~ In p (map fst (c_sasks i)) /\
+                        ~ In p (delta_prices (c_deltas i))).
+  { intros p Hp. unfold grid_of in Hp.
+    repeat split; intros Hin; apply Hp; apply dedup_in; fold (delta_prices (c_deltas i));
+      rewrite !in_app_iff; tauto. }
+  apply side_is_map_sound in Hb as [Sb Lb].
+  2:{ intros p Hp. destruct (G p Hp) as (G1 & _ & G3). split; [|apply B_off_grid; exact G3].
+      rewrite lookup_sort_levels. apply lookup_not_in. exact G1. }
+  apply side_is_map_sound in Ha as [Sa La].
+  2:{ intros p Hp. destruct (G p Hp) as (_ & G2 & G3). split; [|apply B_off_grid; exact G3].
+      rewrite lookup_sort_levels. apply lookup_not_in. exact G2. }
+  unfold book_is, snapshot_event. cbn [update bseq bids asks]. split; [reflexivity|].
+  split; [split; assumption|]. split; assumption.
+Qed.
+
+(** ** delivered messages *)
+Lemma msg_of_ids insts d :
+  m_U (msg_of insts d) = d_U d /\ m_u (msg_of insts d) = d_u d /\ m_pu (msg_of insts d) = d_pu d.
+Proof. unfold msg_of. destruct (find_inst (d_sid d) insts); repeat split. Qed.
+
+Lemma genuine_b_sound v insts i d :
+  find_inst (d_sid d) insts = Some i -> genuine_b v i d = true ->
+  genuine (delta_of (c_deltas i)) v (msg_of insts d).
+Proof.
+  intros Hf H. unfold genuine_b in H. apply andb_true_iff in H as [HUu Hv].
+  unfold genuine, msg_of. rewrite Hf. cbn [m_U m_u m_pu m_bids m_asks].
+  split; [lia|]. split; [|split].
+  - intros p. destruct (d_net d); [apply last_write_net|reflexivity].
+  - intros p. destruct (d_net d); [apply last_write_net|reflexivity].
+  - destruct v; [exact I|]. apply andb_true_iff in Hv as [Hpu Hgap]. split; [lia|].
+    intros n H1 H2. rewrite forallb_forall in Hgap.
+    specialize (Hgap (N.to_nat (n - d_pu d - 1))).
+    replace (d_pu d + 1 + N.of_nat (N.to_nat (n - d_pu d - 1)))%N with n in Hgap by lia.
+    assert (Hin : In (N.to_nat (n - d_pu d - 1)) (List.seq 0%nat (N.to_nat (d_U d - d_pu d - 1)))).
+    { apply in_seq. lia. }
+    specialize (Hgap Hin). destruct (delta_of (c_deltas i) n) as [[|? ?] [|? ?]]; try discriminate. reflexivity.
+Qed.
+
+(** ** looking instruments up by subscription id / by key *)
+Fixpoint find_by (k : icfg -> N) (n : N) (l : list icfg) : option icfg :=
+  match l with
+  | [] => None
+  | i :: tl => if N.eqb n (k i) then Some i else find_by k n tl
+  end.
+
+Lemma find_inst_by sid l : find_inst sid l = find_by c_sid sid l.
+Proof. induction l as [|i tl IH]; [reflexivity|]. cbn. rewrite IH. reflexivity. Qed.
+
+Lemma find_by_some k n : forall l i, find_by k n l = Some i -> In i l /\ k i = n.
+Proof.
+  induction l as [|j tl IH]; intros i H; [discriminate|]. cbn in H.
+  destruct (N.eqb_spec n (k j)) as [E|_].
+  - injection H as <-. split; [left; reflexivity|congruence].
+  - destruct (IH i H). split; [right; assumption|assumption].
+Qed.
+
+Lemma find_by_in k : forall l i, In i l -> nodupN (map k l) = true -> find_by k (k i) l = Some i.
+Proof.
+  induction l as [|j tl IH]; intros i Hin Hn; [destruct Hin|].
+  cbn [map nodupN] in Hn. apply andb_true_iff in Hn as [Hj Hn]. cbn [find_by].
+  destruct Hin as [->|Hin]; [rewrite N.eqb_refl; reflexivity|].
+  destruct (N.eqb_spec (k i) (k j)) as [E|_]; [|apply IH; assumption].
+  exfalso. apply negb_true_iff in Hj. unfold memN in Hj.
+  assert (existsb (N.eqb (k j)) (map k tl) = true); [|congruence].
+  apply existsb_exists. exists (k i). split; [apply in_map; exact Hin|apply N.eqb_eq; congruence].
+Qed.
+
+Lemma find_by_inj (k : icfg -> N) (l : list icfg) i j :
+  nodupN (map k l) = true -> In i l -> In j l -> k i = k j -> i = j.
+Proof.
+  intros Hn Hi Hj E. pose proof (find_by_in k l i Hi Hn) as F1. pose proof (find_by_in k l j Hj Hn) as F2.
+  rewrite E in F1. congruence.
+Qed.
+
+(** ** the connection's state: shape invariants *)
+Section Stream.
+  Variable v : venue.
+  Variable insts : list icfg.
+  Hypothesis Nsid : nodupN (map c_sid insts) = true.
+  Hypothesis Nkey : nodupN (map c_key insts) = true.
+
+  Definition dm (d : dmsg) : N * msg := (d_sid d, msg_of insts d).
+
+  (** exactly the instruments are subscribed, each under its id with its key *)
+  Definition TInv (t : list (N * meta)) : Prop :=
+    forall sid, match find_inst sid insts, tfind sid t with
+                | None, None => True
+                | Some j, Some mt => mt_key mt = c_key j
+                | _, _ => False
+                end.
+  (** one book per instrument, in instrument order *)
+  Definition BInv (bs : list (N * book)) : Prop := map fst bs = map c_key insts.
+
+  Lemma TInv_some t i : TInv t -> In i insts -> exists s, tfind (c_sid i) t = Some (mkMeta (c_key i) s).
+  Proof.
+    intros HT Hin. specialize (HT (c_sid i)).
+    rewrite find_inst_by, (find_by_in c_sid insts i Hin Nsid) in HT.
+    destruct (tfind (c_sid i) t) as [[k s]|]; [|destruct HT]. cbn in HT. subst k. exists s. reflexivity.
+  Qed.
+
+  Lemma find_inst_some sid i : find_inst sid insts = Some i -> In i insts /\ c_sid i = sid.
+  Proof. rewrite find_inst_by. apply find_by_some. Qed.
+
+  Lemma bfind_map_fst : forall (bs : list (N * book)) (ks : list N) k,
+    map fst bs = ks -> In k ks -> exists b, bfind k bs = Some b.
+  Proof.
+    induction bs as [|[k0 b0] tl IH]; intros ks k E Hin; subst ks; [destruct Hin|].
+    cbn [map fst In bfind] in *. destruct (N.eqb_spec k k0) as [_|Hne]; [eexists; reflexivity|].
+    destruct Hin as [->|Hin]; [congruence|]. eapply IH; [reflexivity|exact Hin].
+  Qed.
+
+  Lemma BInv_some bs i : BInv bs -> In i insts -> exists b, bfind (c_key i) bs = Some b.
+  Proof. intros HB Hin. eapply bfind_map_fst; [exact HB|apply in_map; exact Hin]. Qed.
+
+  Lemma bapply_fst key e : forall bs, map fst (bapply key e bs) = map fst bs.
+  Proof.
+    induction bs as [|[k b] tl IH]; [reflexivity|]. cbn [bapply]. destruct (N.eqb key k); cbn [map fst]; [reflexivity|].
+    rewrite IH. reflexivity.
+  Qed.
+
+  (** what a step does when the id is subscribed / is not *)
+  Definition tout_of (key : N) (m : msg) (r : vres) : tout :=
+    match r with
+    | VDrop => TNone
+    | VErr e => TErr e
+    | VOk => TEvent key (m_E m) (event_of v m)
+    end.
+
+  Lemma tstep_none t bs sid m :
+    tfind sid t = None -> tstep v (t, bs) (sid, m) = ((t, bs), TErr (SocketUnidentifiable sid)).
+  Proof. intros H. unfold tstep, transform. cbn [fst snd]. rewrite H. reflexivity. Qed.
+
+  Lemma tstep_some t bs sid m key s b :
+    tfind sid t = Some (mkMeta key s) -> bfind key bs = Some b ->
+    let st1 := fst (step1 v (mkIst s b) m) in
+    let r := snd (step1 v (mkIst s b) m) in
+    exists t' bs',
+      tstep v (t, bs) (sid, m) = ((t', bs'), tout_of key m r) /\
+      (forall sid', tfind sid' t' = if N.eqb sid' sid then Some (mkMeta key (i_seq st1)) else tfind sid' t) /\
+      (forall k, bfind k bs' = if N.eqb k key then Some (i_book st1) else bfind k bs) /\
+      map fst bs' = map fst bs.
+  Proof.
+    intros Hf Hb. unfold tstep, transform, step1. cbn [fst snd i_seq i_book]. rewrite Hf. cbn [mt_key mt_seq].
+    destruct (validate_sequence v s m) as [s' r]. cbn [fst snd i_seq i_book].
+    assert (HT : forall sid', tfind sid' (tset sid (mkMeta key s') t) =
+                              if N.eqb sid' sid then Some (mkMeta key s') else tfind sid' t).
+    { intros sid'. rewrite tfind_tset, Hf. reflexivity. }
+    destruct r; cbn [fst snd consume tout_of]; eexists; eexists; (split; [reflexivity|]); (split; [exact HT|]).
+    - split; [|reflexivity]. intros k. destruct (N.eqb_spec k key) as [->|_]; [exact Hb|reflexivity].
+    - split; [|apply bapply_fst]. intros k. rewrite bfind_bapply, Hb. reflexivity.
+    - split; [|reflexivity]. intros k. destruct (N.eqb_spec k key) as [->|_]; [exact Hb|reflexivity].
+  Qed.
+
+  Lemma TInv_step t t' sid key s1 :
+    TInv t -> (exists s, tfind sid t = Some (mkMeta key s)) ->
+    (forall sid', tfind sid' t' = if N.eqb sid' sid then Some (mkMeta key s1) else tfind sid' t) ->
+    TInv t'.
+  Proof.
+    intros HT [s Hf] Ht' sid'. rewrite Ht'. specialize (HT sid').
+    destruct (N.eqb_spec sid' sid) as [->|_]; [|exact HT].
+    rewrite Hf in HT. destruct (find_inst sid insts); exact HT.
+  Qed.
+End Stream.
+
+(** ** walking the delivery: [prop_steps] succeeds on whatever the model produced *)
+Section Steps.
+  Variable v : venue.
+  Variable insts : list icfg.
+  Hypothesis Nsid : nodupN (map c_sid insts) = true.
+  Hypothesis Nkey : nodupN (map c_key insts) = true.
+
+  (** every instrument still judged holds the exchange's book as of its sequencer's id *)
+  Definition Sem (stopped : list N) (t : list (N * meta)) (bs : list (N * book)) : Prop :=
+    forall i, In i insts -> memN (c_sid i) stopped = false ->
+      exists s b, tfind (c_sid i) t = Some (mkMeta (c_key i) s) /\ bfind (c_key i) bs = Some b /\
+                  book_is (delta_of (c_deltas i)) b (sq_last s).
+
+  Lemma memN_cons x y l : memN x (y :: l) = false -> x <> y /\ memN x l = false.
+  Proof.
+    unfold memN. cbn [existsb]. intros H. apply orb_false_iff in H as [H1 H2].
+    split; [apply N.eqb_neq; exact H1|exact H2].
+  Qed.
+
+  Lemma steps_ok : forall ds os t bs stopped bsf,
+    TInv insts t -> BInv insts bs -> Sem stopped t bs ->
+    corr_stream v insts (t, bs) ds os = Some bsf ->
+    exists stopped' tf, prop_steps v insts stopped ds os = Some stopped' /\
+                        TInv insts tf /\ BInv insts bsf /\ Sem stopped' tf bsf.
+  Proof.
+    induction ds as [|d ds IH]; intros [|o os] t bs stopped bsf HT HB HS Hc; cbn [corr_stream] in Hc; try discriminate.
+    { injection Hc as <-. exists stopped, t. repeat split; assumption. }
+    cbn [prop_steps]. destruct (find_inst (d_sid d) insts) as [i|] eqn:Hfi.
+    - (* a subscribed id *)
+      destruct (find_inst_some insts _ _ Hfi) as [Hin Esid].
+      destruct (TInv_some insts Nsid t i HT Hin) as [s Hf].
+      destruct (BInv_some insts bs i HB Hin) as [b Hb].
+      rewrite Esid in Hf.
+      destruct (tstep_some v t bs (d_sid d) (msg_of insts d) (c_key i) s b Hf Hb) as (t' & bs' & Hstep & Ht' & Hbs' & Hfst).
+      cbv zeta in Hstep, Ht', Hbs'.
+      set (st1 := fst (step1 v (mkIst s b) (msg_of insts d))) in *.
+      set (r := snd (step1 v (mkIst s b) (msg_of insts d))) in *.
+      rewrite Hstep in Hc. cbn [fst snd] in Hc.
+      destruct (obs_matches v t' bs' (tout_of v (c_key i) (msg_of insts d) r) o) eqn:Hobs; [|discriminate].
+      apply obs_matches_spec in Hobs as [Hout Hbook].
+      assert (HT' : TInv insts t').
+      { eapply TInv_step; [exact HT|exists s; exact Hf|exact Ht']. }
+      assert (HB' : BInv insts bs') by (unfold BInv in *; congruence).
+      assert (Frame : forall j, In j insts -> c_sid j <> c_sid i ->
+                        tfind (c_sid j) t' = tfind (c_sid j) t /\ bfind (c_key j) bs' = bfind (c_key j) bs).
+      { intros j Hj Hne. rewrite Ht', Hbs'. rewrite <- Esid.
+        destruct (N.eqb_spec (c_sid j) (c_sid i)); [contradiction|].
+        destruct (N.eqb_spec (c_key j) (c_key i)) as [E|_]; [|split; reflexivity].
+        exfalso. apply Hne. f_equal. exact (find_by_inj c_key insts j i Nkey Hj Hin E). }
+      assert (SemStop : Sem (d_sid d :: stopped) t' bs').
+      { intros j Hj Hm. apply memN_cons in Hm as [Hne Hm]. rewrite <- Esid in Hne.
+        destruct (Frame j Hj Hne) as [F1 F2]. rewrite F1, F2. apply HS; assumption. }
+      assert (SemKeep : (memN (d_sid d) stopped = false ->
+                         book_is (delta_of (c_deltas i)) (i_book st1) (sq_last (i_seq st1))) ->
+                        Sem stopped t' bs').
+      { intros Hi j Hj Hm. destruct (N.eq_dec (c_sid j) (c_sid i)) as [E|Hne].
+        - assert (j = i) by exact (find_by_inj c_sid insts j i Nsid Hj Hin E). subst j.
+          exists (i_seq st1), (i_book st1). rewrite Ht', Hbs', Esid, !N.eqb_refl.
+          split; [reflexivity|]. split; [reflexivity|]. apply Hi. rewrite <- Esid. exact Hm.
+        - destruct (Frame j Hj Hne) as [F1 F2]. rewrite F1, F2. apply HS; assumption. }
+      destruct (memN (d_sid d) stopped) eqn:Hstopped.
+      { apply (IH os t' bs' stopped bsf HT' HB'); [|exact Hc]. apply SemKeep. discriminate. }
+      destruct (genuine_b v i d) eqn:Hgen; cbn [negb].
+      2:{ apply (IH os t' bs' (d_sid d :: stopped) bsf HT' HB' SemStop Hc). }
+      (* a genuine message for an instrument still judged *)
+      pose proof (genuine_b_sound v insts i d Hfi Hgen) as Hg.
+      assert (Hinv : book_is (delta_of (c_deltas i)) (i_book st1) (sq_last (i_seq st1))).
+      { rewrite <- Esid in Hstopped. destruct (HS i Hin Hstopped) as (s0 & b0 & F1 & F2 & F3).
+        rewrite Esid, Hf in F1. injection F1 as <-. rewrite Hb in F2. injection F2 as <-.
+        exact (step1_inv (delta_of (c_deltas i)) v (mkIst s b) (msg_of insts d) Hg F3). }
+      rewrite Hout. destruct r as [| |e]; cbn [tout_of oclass_of].
+      + apply (IH os t' bs' stopped bsf HT' HB'); [|exact Hc]. apply SemKeep. intros _. exact Hinv.
+      + cbn [tout_of] in Hbook. destruct Hbook as (b'' & Hb'' & Hob). rewrite Hob, N.eqb_refl. cbn [andb].
+        rewrite Hbs', N.eqb_refl in Hb''. injection Hb'' as <-.
+        rewrite (book_is_obs i _ _ Hinv).
+        apply (IH os t' bs' stopped bsf HT' HB'); [|exact Hc]. apply SemKeep. intros _. exact Hinv.
+      + destruct e as [a c|x].
+        * apply (IH os t' bs' (d_sid d :: stopped) bsf HT' HB' SemStop Hc).
+        * apply (IH os t' bs' stopped bsf HT' HB'); [|exact Hc]. apply SemKeep. intros _. exact Hinv.
+    - (* nobody is subscribed under this id *)
+      assert (Hf : tfind (d_sid d) t = None).
+      { specialize (HT (d_sid d)). rewrite Hfi in HT. destruct (tfind (d_sid d) t); [destruct HT|reflexivity]. }
+      rewrite (tstep_none v t bs _ _ Hf) in Hc. cbn [fst snd] in Hc.
+      destruct (obs_matches v t bs (TErr (SocketUnidentifiable (d_sid d))) o) eqn:Hobs; [|discriminate].
+      apply obs_matches_spec in Hobs as [Hout _]. rewrite Hout. cbn [oclass_of].
+      exact (IH os t bs stopped bsf HT HB HS Hc).
+  Qed.
+End Steps.
+
+(** ** the boolean venue rules against any message function that keeps the ids *)
+Section RulesGen.
+  Variable g : dmsg -> msg.
+  Hypothesis Hg : forall d, m_U (g d) = d_U d /\ m_u (g d) = d_u d /\ m_pu (g d) = d_pu d.
+
+  Lemma older_g v l d : older_b v l (d_u d) = true <-> older v l (g d).
+  Proof. destruct (Hg d) as (E1 & E2 & E3). destruct v; cbn [older_b older]; rewrite E2; lia. Qed.
+  Lemma first_g v l d : first_rule_b v l (d_U d) (d_u d) = true <-> first_rule v l (g d).
+  Proof. destruct (Hg d) as (E1 & E2 & E3). destruct v; cbn [first_rule_b first_rule]; rewrite E1, E2; lia. Qed.
+  Lemma next_g v prev d : next_rule_b v prev (d_U d) (d_pu d) = true <-> next_rule v prev (g d).
+  Proof. destruct (Hg d) as (E1 & E2 & E3). destruct v; cbn [next_rule_b next_rule]; rewrite ?E1, ?E3; lia. Qed.
+  Lemma wf_g v d : ids_wf_b v d = true <-> ids_wf v (g d).
+  Proof. destruct (Hg d) as (E1 & E2 & E3). destruct v; unfold ids_wf_b, ids_wf; rewrite E1, E2, ?E3; lia. Qed.
+
+  Lemma chain_from_g v : forall ds prev, chain_from_b v prev ds = true <-> chain_from v prev (map g ds).
+  Proof.
+    induction ds as [|d ds IH]; intros prev; cbn [chain_from_b chain_from map]; [tauto|].
+    destruct (Hg d) as (_ & E2 & _). rewrite andb_true_iff, next_g, IH, E2. reflexivity.
+  Qed.
+  Lemma chain_ok_g v l ds : chain_ok_b v l ds = true <-> chain_ok v l (map g ds).
+  Proof.
+    destruct ds as [|d ds]; cbn [chain_ok_b chain_ok map]; [tauto|].
+    destruct (Hg d) as (_ & E2 & _). rewrite andb_true_iff, first_g, chain_from_g, E2. reflexivity.
+  Qed.
+End RulesGen.
+
+(** ** small list facts *)
+Lemma take_drop_while {A} (f : A -> bool) : forall l, l = take_while f l ++ drop_while f l.
+Proof. induction l as [|x tl IH]; [reflexivity|]. cbn. destruct (f x); [cbn; f_equal; exact IH|reflexivity]. Qed.
+
+Lemma take_while_all {A} (f : A -> bool) : forall l, Forall (fun x => f x = true) (take_while f l).
+Proof.
+  induction l as [|x tl IH]; [constructor|]. cbn. destruct (f x) eqn:E; [constructor; assumption|constructor].
+Qed.
+
+Lemma app_eq_length {A} : forall (a c b d : list A),
+  length a = length c -> a ++ b = c ++ d -> a = c /\ b = d.
+Proof.
+  induction a as [|x a IH]; intros [|y c] b d Hl E; cbn in *; try discriminate; [split; [reflexivity|exact E]|].
+  injection E as -> E. injection Hl as Hl. destruct (IH c b d Hl E) as [-> ->]. split; reflexivity.
+Qed.
+
+Lemma Forall2_repeat_r {A B} (R : A -> B -> Prop) y : forall l n,
+  Forall2 R l (repeat y n) -> Forall (fun x => R x y) l.
+Proof.
+  induction l as [|x l IH]; intros n H; [constructor|].
+  destruct n as [|n]; cbn in H; inversion H; subst. constructor; [assumption|eapply IH; eassumption].
+Qed.
+
+Lemma Forall2_len {A B} (R : A -> B -> Prop) l l' : Forall2 R l l' -> length l = length l'.
+Proof. induction 1; cbn; congruence. Qed.
+
+Lemma run1_length v : forall ms st, length (snd (run1 v st ms)) = length ms.
+Proof.
+  induction ms as [|m ms IH]; intros st; [reflexivity|]. rewrite run1_cons. cbn [snd length]. rewrite IH. reflexivity.
+Qed.
+
+(** ** one instrument's part of the delivery is a run of that instrument alone *)
+Section Trace.
+  Variable v : venue.
+  Variable insts : list icfg.
+  Hypothesis Nsid : nodupN (map c_sid insts) = true.
+  Hypothesis Nkey : nodupN (map c_key insts) = true.
+
+  Definition kind_ok (r : vres) (c : oclass) : Prop :=
+    match r with
+    | VDrop => c = ONone
+    | VOk => is_event c = true
+    | VErr _ => is_none c = false /\ is_event c = false
+    end.
+
+  Notation pm := (fun p : dmsg * oclass => msg_of insts (fst p)).
+
+  Lemma kind_ok_of key m r : kind_ok r (oclass_of v (tout_of v key m r)).
+  Proof. destruct r as [| |[a b|x]]; cbn; try reflexivity; split; reflexivity. Qed.
+
+  Lemma trace_ok : forall ds os t bs bsf i s b,
+    In i insts -> TInv insts t -> BInv insts bs ->
+    tfind (c_sid i) t = Some (mkMeta (c_key i) s) -> bfind (c_key i) bs = Some b ->
+    corr_stream v insts (t, bs) ds os = Some bsf ->
+    Forall2 (fun p r => kind_ok r (snd p)) (of_sid (c_sid i) ds os)
+            (snd (run1 v (mkIst s b) (map pm (of_sid (c_sid i) ds os)))).
+  Proof.
+    induction ds as [|d ds IH]; intros [|o os] t bs bsf i s b Hin HT HB Hf Hb Hc; cbn [corr_stream] in Hc;
+      try discriminate; cbn [of_sid map run1 snd]; try constructor.
+    destruct (N.eqb_spec (d_sid d) (c_sid i)) as [E|Hne].
+    - (* this instrument's message *)
+      rewrite <- E in Hf.
+      destruct (tstep_some v t bs (d_sid d) (msg_of insts d) (c_key i) s b Hf Hb) as (t' & bs' & Hstep & Ht' & Hbs' & Hfst).
+      cbv zeta in Hstep, Ht', Hbs'. rewrite Hstep in Hc. cbn [fst snd] in Hc.
+      match type of Hc with (if ?c then _ else _) = _ => destruct c eqn:Hobs; [|discriminate] end.
+      apply obs_matches_spec in Hobs as [Hout _].
+      cbn [map fst]. rewrite run1_cons. cbn [snd]. constructor.
+      + cbn [snd]. rewrite Hout. apply kind_ok_of.
+      + assert (HT' : TInv insts t') by (eapply TInv_step; [exact HT|exists s; exact Hf|exact Ht']).
+        assert (HB' : BInv insts bs') by (unfold BInv in *; congruence).
+        destruct (fst (step1 v (mkIst s b) (msg_of insts d))) as [s1 b1] eqn:Est. cbn [i_seq i_book] in *.
+        apply (IH os t' bs' bsf i s1 b1 Hin HT' HB'); [| |exact Hc].
+        * rewrite Ht', <- E, N.eqb_refl. reflexivity.
+        * rewrite Hbs', N.eqb_refl. reflexivity.
+    - (* somebody else's *)
+      destruct (tfind (d_sid d) t) as [[kj sj]|] eqn:Hfj.
+      + pose proof (HT (d_sid d)) as Hj. rewrite Hfj in Hj.
+        destruct (find_inst (d_sid d) insts) as [j|] eqn:Hfi; [|destruct Hj]. cbn in Hj. subst kj.
+        destruct (find_inst_some insts _ _ Hfi) as [Hjin Ej].
+        destruct (BInv_some insts bs j HB Hjin) as [bj Hbj].
+        destruct (tstep_some v t bs (d_sid d) (msg_of insts d) (c_key j) sj bj Hfj Hbj) as (t' & bs' & Hstep & Ht' & Hbs' & Hfst).
+        cbv zeta in Hstep, Ht', Hbs'. rewrite Hstep in Hc. cbn [fst snd] in Hc.
+        match type of Hc with (if ?c then _ else _) = _ => destruct c eqn:Hobs; [|discriminate] end.
+        assert (HT' : TInv insts t') by (eapply TInv_step; [exact HT|exists sj; exact Hfj|exact Ht']).
+        assert (HB' : BInv insts bs') by (unfold BInv in *; congruence).
+        apply (IH os t' bs' bsf i s b Hin HT' HB'); [| |exact Hc].
+        * rewrite Ht'. destruct (N.eqb_spec (c_sid i) (d_sid d)); [congruence|exact Hf].
+        * rewrite Hbs'. destruct (N.eqb_spec (c_key i) (c_key j)) as [Ek|_]; [|exact Hb].
+          exfalso. apply Hne. rewrite <- Ej. f_equal. symmetry. exact (find_by_inj c_key insts i j Nkey Hin Hjin Ek).
+      + rewrite (tstep_none v t bs _ _ Hfj) in Hc. cbn [fst snd] in Hc.
+        match type of Hc with (if ?c then _ else _) = _ => destruct c eqn:Hobs; [|discriminate] end.
+        exact (IH os t bs bsf i s b Hin HT HB Hf Hb Hc).
+  Qed.
+
+  Lemma msg_of_ids_all : forall d, m_U (msg_of insts d) = d_U d /\ m_u (msg_of insts d) = d_u d /\ m_pu (msg_of insts d) = d_pu d.
+  Proof. intros d. apply msg_of_ids. Qed.
+
+  Lemma map_pm l : map pm l = map (msg_of insts) (map fst l).
+  Proof. rewrite map_map. reflexivity. Qed.
+
+  (** no false alarm *)
+  Lemma nfa_ok i ps bk :
+    Forall2 (fun p r => kind_ok r (snd p)) ps (snd (run1 v (mkIst (seq_new (c_L i)) bk) (map pm ps))) ->
+    no_false_alarm_b v i ps = true.
+  Proof.
+    intros H. unfold no_false_alarm_b.
+    set (isold := fun p : dmsg * oclass => older_b v (c_L i) (d_u (fst p))).
+    pose proof (take_drop_while isold ps) as Eps. pose proof (take_while_all isold ps) as Hold.
+    set (old := take_while isold ps) in *. set (suf := drop_while isold ps) in *.
+    destruct (forallb (fun p => ids_wf_b v (fst p)) suf && chain_ok_b v (c_L i) (map fst suf)) eqn:Hshape; [|reflexivity].
+    apply andb_true_iff in Hshape as [Hwf Hch].
+    rewrite Eps, map_app in H.
+    assert (Ho : Forall (older v (c_L i)) (map pm old)).
+    { apply Forall_map. eapply Forall_impl; [|exact Hold]. intros p Hp. cbv beta in Hp |- *.
+      apply (older_g (msg_of insts) msg_of_ids_all). exact Hp. }
+    assert (Hw : Forall (ids_wf v) (map pm suf)).
+    { apply Forall_map. rewrite forallb_forall in Hwf. apply Forall_forall. intros p Hp. cbv beta.
+      apply (wf_g (msg_of insts) msg_of_ids_all). apply Hwf. exact Hp. }
+    assert (Hc : chain_ok v (c_L i) (map pm suf)).
+    { rewrite map_pm. apply (chain_ok_g (msg_of insts) msg_of_ids_all). exact Hch. }
+    rewrite (no_false_alarm_lemma v (c_L i) bk _ _ Ho Hw Hc) in H.
+    apply Forall2_app_inv_l in H as (r1 & r2 & H1 & H2 & E).
+    apply app_eq_length in E as [<- <-].
+    2:{ rewrite repeat_length, map_length. eapply Forall2_len. exact H1. }
+    apply Forall2_repeat_r in H1. apply Forall2_repeat_r in H2.
+    apply andb_true_iff. split; apply forallb_forall; intros p Hp.
+    - rewrite Forall_forall in H1. specialize (H1 p Hp). cbn in H1. rewrite H1. reflexivity.
+    - rewrite Forall_forall in H2. exact (H2 p Hp).
+  Qed.
+
+  (** the admitted messages form a chain *)
+  Lemma admitted_filter : forall (l : list (dmsg * oclass)) rs,
+    Forall (fun p => is_none (snd p) || is_event (snd p) = true) l ->
+    Forall2 (fun p r => kind_ok r (snd p)) l rs ->
+    admitted (map pm l) rs = map pm (filter (fun p => is_event (snd p)) l).
+  Proof.
+    induction l as [|p l IH]; intros rs Hall H2; inversion H2 as [|? r ? rs' Hk H2']; subst; [reflexivity|].
+    inversion Hall as [|? ? Hp Hall']; subst. cbn [map filter admitted].
+    destruct r as [| |e]; cbn [kind_ok] in Hk.
+    - rewrite Hk. cbn [is_event]. apply IH; assumption.
+    - rewrite Hk. cbn [map]. f_equal. apply IH; assumption.
+    - destruct Hk as [K1 K2]. rewrite K1, K2 in Hp. discriminate.
+  Qed.
+
+  Lemma adm_ok i ps bk :
+    Forall2 (fun p r => kind_ok r (snd p)) ps (snd (run1 v (mkIst (seq_new (c_L i)) bk) (map pm ps))) ->
+    admitted_chain_b v i ps = true.
+  Proof.
+    intros H. unfold admitted_chain_b.
+    set (g := fun p : dmsg * oclass => is_none (snd p) || is_event (snd p)).
+    pose proof (take_drop_while g ps) as Eps. pose proof (take_while_all g ps) as Hall.
+    set (upto := take_while g ps) in *. set (rest := drop_while g ps) in *.
+    rewrite Eps, map_app, run1_app in H. cbn [snd] in H.
+    apply Forall2_app_inv_l in H as (r1 & r2 & H1 & H2 & E).
+    apply app_eq_length in E as [E1 _].
+    2:{ rewrite run1_length, map_length. eapply Forall2_len. exact H1. }
+    subst r1.
+    pose proof (admitted_chain_first v (map pm upto) (mkIst (seq_new (c_L i)) bk) eq_refl) as Hch.
+    cbn [i_seq seq_new sq_last] in Hch.
+    rewrite (admitted_filter upto _ Hall H1), map_pm in Hch.
+    apply (chain_ok_g (msg_of insts) msg_of_ids_all). exact Hch.
+  Qed.
+End Trace.
+
+(** ** the connection right after [init] and the REST snapshots *)
+Section Initial.
+  Variable insts : list icfg.
+
+  Definition t0 : list (N * meta) := map (fun i => (c_sid i, mkMeta (c_key i) (seq_new (c_L i)))) insts.
+  Definition bs0 : list (N * book) := map (fun i => (c_key i, update empty_book (snapshot_event i))) insts.
+
+  Lemma tfind_map sid : forall l,
+    tfind sid (map (fun i => (c_sid i, mkMeta (c_key i) (seq_new (c_L i)))) l) =
+    option_map (fun i => mkMeta (c_key i) (seq_new (c_L i))) (find_by c_sid sid l).
+  Proof. induction l as [|i tl IH]; [reflexivity|]. cbn. destruct (N.eqb sid (c_sid i)); [reflexivity|exact IH]. Qed.
+
+  Lemma bfind_map key : forall l,
+    bfind key (map (fun i => (c_key i, update empty_book (snapshot_event i))) l) =
+    option_map (fun i => update empty_book (snapshot_event i)) (find_by c_key key l).
+  Proof. induction l as [|i tl IH]; [reflexivity|]. cbn. destruct (N.eqb key (c_key i)); [reflexivity|exact IH]. Qed.
+
+  Lemma find_snapshot_map key : forall l,
+    find_snapshot key (map (fun i => (c_key i, snapshot_event i)) l) =
+    option_map snapshot_event (find_by c_key key l).
+  Proof.
+    induction l as [|i tl IH]; [reflexivity|]. cbn. rewrite (N.eqb_sym (c_key i) key).
+    destruct (N.eqb key (c_key i)); [reflexivity|exact IH].
+  Qed.
+
+  Lemma init_map snaps : forall l,
+    (forall i, In i l -> find_snapshot (c_key i) snaps = Some (snapshot_event i)) ->
+    init (map (fun i => (c_sid i, c_key i)) l) snaps =
+    InitOk (map (fun i => (c_sid i, mkMeta (c_key i) (seq_new (c_L i)))) l).
+  Proof.
+    induction l as [|i tl IH]; intros H; [reflexivity|]. cbn [map init].
+    rewrite (H i (or_introl eq_refl)). unfold snapshot_event at 1.
+    rewrite IH by (intros j Hj; apply H; right; exact Hj). reflexivity.
+  Qed.
+
+  Hypothesis Nsid : nodupN (map c_sid insts) = true.
+  Hypothesis Nkey : nodupN (map c_key insts) = true.
+
+  Lemma init_t0 :
+    init (map (fun i => (c_sid i, c_key i)) insts) (map (fun i => (c_key i, snapshot_event i)) insts) = InitOk t0.
+  Proof.
+    apply init_map. intros i Hi. rewrite find_snapshot_map, (find_by_in c_key insts i Hi Nkey). reflexivity.
+  Qed.
+
+  Lemma TInv_t0 : TInv insts t0.
+  Proof.
+    intros sid. unfold t0. rewrite tfind_map, find_inst_by. destruct (find_by c_sid sid insts); cbn; [reflexivity|exact I].
+  Qed.
+
+  Lemma BInv_bs0 : BInv insts bs0.
+  Proof. unfold BInv, bs0. rewrite map_map. reflexivity. Qed.
+
+  Lemma tfind_t0 i : In i insts -> tfind (c_sid i) t0 = Some (mkMeta (c_key i) (seq_new (c_L i))).
+  Proof. intros Hi. unfold t0. rewrite tfind_map, (find_by_in c_sid insts i Hi Nsid). reflexivity. Qed.
+
+  Lemma bfind_bs0 i : In i insts -> bfind (c_key i) bs0 = Some (update empty_book (snapshot_event i)).
+  Proof. intros Hi. unfold bs0. rewrite bfind_map, (find_by_in c_key insts i Hi Nkey). reflexivity. Qed.
+End Initial.
+
+(** ** the final books, instrument by instrument *)
+Lemma zip_final_ok : forall insts (bsf : list (N * book)),
+  map fst bsf = map c_key insts ->
+  exists fin, zip_final insts (map snd bsf) = Some fin /\
+              (nodupN (map c_key insts) = true ->
+               forall i b, In (i, b) fin -> In i insts /\ bfind (c_key i) bsf = Some b).
+Proof.
+  induction insts as [|i it IH]; intros [|[k b] bt] E; cbn in E; try discriminate.
+  - exists []. split; [reflexivity|]. intros _ j c [].
+  - injection E as -> E. destruct (IH bt E) as (fin & Hz & Hfin).
+    exists ((i, b) :: fin). cbn [map snd zip_final]. rewrite Hz. split; [reflexivity|].
+    intros Hn j c Hin. cbn [map nodupN] in Hn. apply andb_true_iff in Hn as [Hi Hn].
+    destruct Hin as [Ej|Hin].
+    + injection Ej as <- <-. split; [left; reflexivity|]. cbn [bfind]. rewrite N.eqb_refl. reflexivity.
+    + destruct (Hfin Hn j c Hin) as [Hj Hb]. split; [right; exact Hj|].
+      cbn [bfind]. destruct (N.eqb_spec (c_key j) (c_key i)) as [Ek|_]; [|exact Hb].
+      exfalso. apply negb_true_iff in Hi. unfold memN in Hi.
+      assert (existsb (N.eqb (c_key i)) (map c_key it) = true); [|congruence].
+      apply existsb_exists. exists (c_key j). split; [apply in_map; exact Hj|apply N.eqb_eq; congruence].
+Qed.
+
+(** ** single calls *)
+Lemma seq_case_sound v s U u pu r s' :
+  corr_b (CSeq v s U u pu r s') = true -> prop_b (CSeq v s U u pu r s') = true.
+Proof.
+  cbn [corr_b prop_b]. pose proof (prop_seq_accepts_model v s U u pu) as HP. cbv zeta in HP.
+  destruct (validate_sequence v s (mkMsg U u pu 0 0 [] [])) as [s1 r1]. cbn [fst snd] in HP.
+  intros H. apply andb_true_iff in H as [Hr Hs].
+  assert (Er : r = sres_of r1).
+  { destruct r1 as [| |[a b|x]]; destruct r; cbn in Hr; try discriminate; cbn [sres_of is_terminal].
+    - reflexivity.
+    - subst. reflexivity.
+    - apply andb_true_iff in Hr as [Hr ->]. apply andb_true_iff in Hr as [Ha Hb].
+      apply N.eqb_eq in Ha, Hb. subst. reflexivity. }
+  subst r. unfold seq_eqb in Hs. apply andb_true_iff in Hs as [Hs _]. apply andb_true_iff in Hs as [H1 H2].
+  apply N.eqb_eq in H1, H2. unfold prop_seq in *. rewrite <- H1, <- H2. exact HP.
+Qed.
+
+(** ** the link theorem: on every case that meets the input requirements, whatever the model
+    reproduces exactly ([corr_b]) is accepted by the oracle ([prop_b]): the oracle is no stricter
+    than the model, so a [prop_b] failure on the implementation is never an artefact of the
+    oracle demanding more than the proved model delivers *)
+Theorem oracle_sound c : in_domain c = true -> corr_b c = true -> prop_b c = true.
+Proof.
+  destruct c as [v s U u pu r s'|v insts ds os final|v imap snaps r seqs|w]; intros Hd Hc.
+  - apply seq_case_sound. exact Hc.
+  - cbn [in_domain] in Hd. unfold wf_stream in Hd.
+    apply andb_true_iff in Hd as [Hd Hsnap]. apply andb_true_iff in Hd as [Nsid Nkey].
+    rewrite forallb_forall in Hsnap.
+    cbn [corr_b] in Hc. rewrite (init_t0 insts Nkey) in Hc. fold (bs0 insts) in Hc.
+    destruct (corr_stream v insts (t0 insts, bs0 insts) ds os) as [bsf|] eqn:Hcs; [|discriminate].
+    apply books_eqb_eq in Hc. subst final.
+    assert (HS0 : Sem insts [] (t0 insts) (bs0 insts)).
+    { intros i Hi _. exists (seq_new (c_L i)), (update empty_book (snapshot_event i)).
+      split; [apply tfind_t0; assumption|]. split; [apply bfind_bs0; assumption|].
+      specialize (Hsnap i Hi). apply andb_true_iff in Hsnap as [Hn Hob]. apply andb_true_iff in Hn as [Nb Na].
+      exact (snapshot_book_is i Nb Na Hob). }
+    destruct (steps_ok v insts Nsid Nkey ds os _ _ [] bsf (TInv_t0 insts) (BInv_bs0 insts) HS0 Hcs)
+      as (stopped & tf & Hps & HTf & HBf & HSf).
+    destruct (zip_final_ok insts bsf HBf) as (fin & Hz & Hfin).
+    cbn [prop_b]. rewrite Hps, Hz. apply andb_true_iff. split; apply forallb_forall.
+    + intros [i b] Hib. cbn [fst snd]. destruct (Hfin Nkey i b Hib) as [Hi Hb].
+      destruct (memN (c_sid i) stopped) eqn:Hm; [reflexivity|]. cbn [orb].
+      destruct (HSf i Hi Hm) as (s1 & b1 & _ & F2 & F3). rewrite Hb in F2. injection F2 as <-.
+      exact (book_is_obs i _ _ F3).
+    + intros i Hi.
+      pose proof (trace_ok v insts Nkey ds os _ _ bsf i _ _ Hi (TInv_t0 insts) (BInv_bs0 insts)
+                           (tfind_t0 insts Nsid i Hi) (bfind_bs0 insts Nkey i Hi) Hcs) as Htr.
+      rewrite (nfa_ok v insts i _ _ Htr), (adm_ok v insts i _ _ Htr). reflexivity.
+  - reflexivity.
+  - discriminate.
+Qed.
